@@ -78,7 +78,104 @@ def setup_violation(prop, seed, tier, dirty):
             "known_hits": {}, "diags": {}, "events": 0, "virtual_ms": 0, "digest": "setup", "states": []}
 
 
+# Hermetic runs: every run (generated or replayed) executes in a forked child of a process that has
+# only *imported* the library and the harness.  Whatever a run leaves behind in process-wide state -
+# the library's caches and shared empties, but also any state a changed library keeps that this
+# harness knows nothing about (memo tables keyed by names, ids, ...) - dies with the child, so a
+# run's outcome is a function of (seed, code) alone and a replay in a fresh interpreter starts from
+# the same state as the run that found the violation.  VERIF_HERMETIC=0 runs in-process (debugging).
+HERMETIC = os.environ.get("VERIF_HERMETIC", "1") != "0"
+
+
+def prewarm():
+    """Part of the fixed post-import state every run process is forked from (and every fresh
+    interpreter reaches before a replay): the schema objects used to draw configurations."""
+    import schemas
+
+    for n in schemas.NAMES:
+        schemas.get(n)
+        schemas.twin(n)
+
+
+prewarm()
+
+
+def _in_child(fn, args):
+    import pickle
+    import signal
+
+    if not HERMETIC:
+        return fn(*args)
+    r, w = os.pipe()
+    sys.stdout.flush()
+    sys.stderr.flush()
+    pid = os.fork()
+    if pid == 0:
+        code = 1
+        try:
+            os.close(r)
+
+            def on_alarm(signum, frame):
+                raise RunTimeout()
+
+            signal.signal(signal.SIGALRM, on_alarm)
+            signal.alarm(RUN_TIMEOUT_S)
+            faulthandler.dump_traceback_later(RUN_TIMEOUT_S + 120, exit=True)
+            try:
+                res = fn(*args)
+            finally:
+                signal.alarm(0)
+                faulthandler.cancel_dump_traceback_later()
+            data = pickle.dumps(res, protocol=pickle.HIGHEST_PROTOCOL)
+            with os.fdopen(w, "wb") as f:
+                f.write(data)
+            code = 0
+        except BaseException:  # noqa: BLE001
+            try:
+                os.write(w, pickle.dumps({"__child_error__": traceback.format_exc()}))
+            except Exception:  # noqa: BLE001
+                pass
+        finally:
+            os._exit(code)
+    os.close(w)
+    chunks = []
+    while True:
+        b = os.read(r, 1 << 20)
+        if not b:
+            break
+        chunks.append(b)
+    os.close(r)
+    _, status = os.waitpid(pid, 0)
+    err = None
+    res = None
+    if chunks:
+        try:
+            res = pickle.loads(b"".join(chunks))
+        except Exception as e:  # noqa: BLE001
+            err = "unreadable result from run process: %r" % (e,)
+    if isinstance(res, dict) and "__child_error__" in res:
+        err = res["__child_error__"]
+        res = None
+    if res is None:
+        err = err or "run process ended without a result (wait status %r)" % (status,)
+        return {"seed": None, "violation": None, "internal": err, "stats": {}, "probes": {}, "evals": {},
+                "distinct": {}, "samples": {}, "known_hits": {}, "diags": {}, "events": 0, "virtual_ms": 0,
+                "states": [], "aborted": None, "digest": None}
+    return res
+
+
 def run_generated(prop, tier, seed, known, want_trace=False):
+    r = _in_child(_run_generated, (prop, tier, seed, known, want_trace))
+    if r.get("seed") is None:
+        r["seed"] = seed
+    return r
+
+
+def run_replay(prop, cfg, trace, known, on=None):
+    return _in_child(_run_replay, (prop, cfg, trace, known, on))
+
+
+def _run_generated(prop, tier, seed, known, want_trace=False):
     import schemas
 
     schemas.restore_defaults()
@@ -119,10 +216,13 @@ def run_generated(prop, tier, seed, known, want_trace=False):
     if res["violation"] or want_trace:
         res["cfg"] = cfg
         res["trace"] = s.trace if s else []
+    # keep child->parent traffic small
+    res["distinct"] = {k: [hashlib.sha1(repr(x).encode()).hexdigest()[:12] for x in v]
+                       for k, v in res["distinct"].items()}
     return res
 
 
-def run_replay(prop, cfg, trace, known, on=None):
+def _run_replay(prop, cfg, trace, known, on=None):
     import schemas
 
     schemas.restore_defaults()
@@ -252,19 +352,20 @@ def _worker(args):
     for seed in seeds:
         if time.time() > deadline:
             break
-        # Python-level backstop first (keeps the pool alive), hard exit only if that cannot fire
-        signal.alarm(RUN_TIMEOUT_S)
-        faulthandler.dump_traceback_later(RUN_TIMEOUT_S + 120, exit=True)
+        # the wall-clock backstop (Python-level alarm first, hard exit if that cannot fire) is armed
+        # inside the run's own process
         t0 = time.time()
-        try:
+        if HERMETIC:
             r = run_generated(prop, tier, seed, known)
-        finally:
-            signal.alarm(0)
-            faulthandler.cancel_dump_traceback_later()
+        else:
+            signal.alarm(RUN_TIMEOUT_S)
+            faulthandler.dump_traceback_later(RUN_TIMEOUT_S + 120, exit=True)
+            try:
+                r = run_generated(prop, tier, seed, known)
+            finally:
+                signal.alarm(0)
+                faulthandler.cancel_dump_traceback_later()
         r["wall"] = time.time() - t0
-        # keep worker->parent traffic small
-        r["distinct"] = {k: [hashlib.sha1(repr(x).encode()).hexdigest()[:12] for x in v]
-                         for k, v in r["distinct"].items()}
         out.append(r)
         if r["violation"] or r["internal"]:
             break
